@@ -36,6 +36,8 @@ pub struct SourceSpec {
 	/// coordinates whose lookup fails (an IO error after the source was opened); the source's own stream leaves
 	/// them out, as the default `get_bbox_tile_stream` of a reader does
 	pub fail: Vec<(u8, u32, u32)>,
+	/// declared tile format (PBF unless a case wants a non-vector source)
+	pub format: TileFormat,
 }
 
 #[derive(Debug)]
@@ -97,7 +99,7 @@ pub fn make_factory(dir: &Path, sources: Sources) -> PipelineFactory {
 				let spec = sources.lock().unwrap().get(&name).cloned().ok_or_else(|| anyhow::anyhow!("no source {name}"))?;
 				Ok(Box::new(MemSource {
 					spec: spec.clone(),
-					parameters: TilesReaderParameters::new(TileFormat::PBF, spec.compression, TileBBoxPyramid::new_full(31)),
+					parameters: TilesReaderParameters::new(spec.format, spec.compression, TileBBoxPyramid::new_full(31)),
 					tilejson: TileJSON::default(),
 				}) as Box<dyn TilesReaderTrait>)
 			})
@@ -504,7 +506,7 @@ impl Runner {
 			}
 			_ => c.tile.clone(),
 		};
-		let sources: Sources = Arc::new(Mutex::new(HashMap::from([("src".to_string(), SourceSpec { tiles: HashMap::from([((3u8, 1u32, 2u32), stored)]), compression, yields: (self.n % 3) as u32, fail: vec![] })])));
+		let sources: Sources = Arc::new(Mutex::new(HashMap::from([("src".to_string(), SourceSpec { tiles: HashMap::from([((3u8, 1u32, 2u32), stored)]), compression, yields: (self.n % 3) as u32, fail: vec![], format: TileFormat::PBF })])));
 		let factory = make_factory(&self.dir, sources);
 		let s = |b: &[u8]| String::from_utf8(b.to_vec()).unwrap();
 		let vpl = format!(
@@ -610,7 +612,7 @@ fn emit_update(out: &mut Out, runner: &mut Runner, c: &UpdCase, compression: Til
 	let ans = match &res {
 		OpResult::BuildErr => "builderr".to_string(),
 		OpResult::BuildPanic => "buildpanic".into(),
-		OpResult::Tile(b) => format!("ok {}", dump_bytes(b, false)),
+		OpResult::Tile(b) => format!("ok {} {}", hex(b), dump_bytes(b, false)), // bytes: the rebuilt tables (from_iter order) are part of the comparison
 		OpResult::None => "none".into(),
 		OpResult::Err => "err".into(),
 		OpResult::Panic(_) => "panic".into(),
@@ -767,7 +769,7 @@ fn emit_paths(out: &mut Out, runner: &mut Runner, c: &UpdCase, rng: &mut Rng) {
 	std::fs::write(runner.dir.join(&csv), csv_text(c)).unwrap();
 	let sources: Sources = Arc::new(Mutex::new(HashMap::from([(
 		"src".to_string(),
-		SourceSpec { tiles, compression: declared, yields: rng.below(3) as u32, fail: if fault == Fault::ReadError { vec![coord] } else { vec![] } },
+		SourceSpec { tiles, compression: declared, yields: rng.below(3) as u32, fail: if fault == Fault::ReadError { vec![coord] } else { vec![] }, format: TileFormat::PBF },
 	)])));
 	let factory = make_factory(&runner.dir, sources);
 	let s = |b: &[u8]| String::from_utf8(b.to_vec()).unwrap();
@@ -1019,6 +1021,7 @@ get_tile_data and (every 4th case) get_tile_stream. Oracle = independent decoder
 (features without the id field are kept; a later CSV row replaces an earlier one with the same id). \
 non-trivial: C11p every case; C11d valid tiles; C11u cases where the expected output differs from the input; distinct by case text"
 		.into();
+	out.notes.push("checklist: 1 thresholds = sweep_string_lengths / sweep_table_sizes (0,1,127..129,255..257,16383..16385 bytes / entries; packed tag list 126/128/130 bytes), extents/versions 0,1,4095..4097,u32::MAX, ids 0/2^63/2^64-1, all varint widths in C11p; 2 faults = emit_paths (read error, wrong codec) + truncated tiles; 3 payloads = 0-byte, 1-byte, duplicate neighbours, truncated; 4 options = all 8 flag combinations x id types x missing layer / id field / id column; 5 reuse = lookup, stream, lookup on one operation object; 6 order = multi-tile streams compared per coordinate, sources that suspend; 7 n.a. (no HTTP); 8 coordinates = zoom 0..31, 32/256 borders; 9 encoder freedoms = 3 layer field orders, reversed feature fields, explicit defaults, padded varints/keys/tag ids, table duplicates, unused entries, int64/sint64 twins (unknown/extension fields, unpacked or split packed tag lists are rejected or overwritten by the decoder by design: not generated); 10 paths = stream vs lookup per coordinate, tile without the named layer vs plain re-encode byte for byte".into());
 	let mut runner = Runner::new(&args.out);
 	if let Some(p) = &args.replay {
 		for line in std::fs::read_to_string(p).unwrap().lines() {
